@@ -6,9 +6,10 @@ REPO=${1:-/repo}
 [ -f /w/out/rust_env.sh ] && . /w/out/rust_env.sh
 cd "$REPO" || exit 2
 export CARGO_NET_OFFLINE=true
+rm -f "$REPO/target/nextest/pb/junit.xml"
 cargo nextest run --workspace --no-fail-fast --tool-config-file pb:/w/lib/nextest.toml --profile pb --test-threads 8 --offline >/tmp/baseline.$$.log 2>&1
 rc=$?
-J=$(find "$REPO/target/nextest/pb" -name junit.xml | head -1)
+J=$(find "$REPO/target/nextest/pb" "${CARGO_TARGET_DIR:-$REPO/target}/nextest/pb" -name junit.xml 2>/dev/null | head -1)
 python3 - "$J" <<'PY'
 import json, sys, xml.etree.ElementTree as ET
 base = json.load(open('/root/.vp/BASELINE.json'))
